@@ -258,7 +258,7 @@ def r16_4(cx):
             for x, y in ((lhs, rhs), (rhs, lhs)):
                 if x.kind == 'call' and x.op.endswith('::cmp') and len(x.args) == 3:
                     k1, k2 = x.args[1].strip(), x.args[2].strip()
-                    less = y.kind == 'const' and (y.info.get('ref_bytes') == 'ff' or y.info.get('int') in (-1, 255))
+                    less = y.kind == 'const' and (y.info.get('variant') == 'Less' or y.info.get('ref_bytes') == 'ff')
                     if k1.kind == 'call' and k1.op.endswith('extract_key') and k1.args[1].has_call(SL + '::back') and \
                             k2.kind == 'call' and k2.op.endswith('extract_key') and k2.args[1].strip().kind == 'param' and less:
                         cmp_ok = True
